@@ -65,6 +65,7 @@ class Obj:
         object.__setattr__(self, '_cls', _cls)
         object.__setattr__(self, '_fields', dict(fields))
         object.__setattr__(self, '_writes', [])
+        object.__setattr__(self, '_fallback', None)
 
     def __getattr__(self, name):
         f = object.__getattribute__(self, '_fields')
@@ -73,6 +74,12 @@ class Obj:
             if isinstance(v, Lazy):
                 v = f[name] = v.thunk()
             return v
+        fb = object.__getattribute__(self, '__dict__').get('_fallback')
+        if fb is not None and not name.startswith('__'):
+            v = fb(self, name)
+            if v is not None:
+                f[name] = v
+                return v
         raise AttributeError("stub %s has no field %r (undeclared in the contract)" %
                              (object.__getattribute__(self, '_name'), name))
 
@@ -85,6 +92,42 @@ class Obj:
 
     def has_field(self, name):
         return name in object.__getattribute__(self, '_fields')
+
+    # dunder protocol for native runs (python looks these up on the type): delegate to fields
+    def _dunder(self, name, *args):
+        f = object.__getattribute__(self, '_fields')
+        if name not in f:
+            raise TypeError("stub %s does not define %s" % (object.__getattribute__(self, '_name'), name))
+        return f[name](*args)
+
+    def __getitem__(self, k):
+        return self._dunder('__getitem__', k)
+
+    def __setitem__(self, k, v):
+        return self._dunder('__setitem__', k, v)
+
+    def __delitem__(self, k):
+        return self._dunder('__delitem__', k)
+
+    def __contains__(self, k):
+        return self._dunder('__contains__', k)
+
+    def __len__(self):
+        return self._dunder('__len__')
+
+    def __enter__(self):
+        f = object.__getattribute__(self, '_fields')
+        return f['__enter__']() if '__enter__' in f else self
+
+    def __exit__(self, *a):
+        f = object.__getattribute__(self, '_fields')
+        return f['__exit__'](*a) if '__exit__' in f else None
+
+    def field(self, name):
+        v = object.__getattribute__(self, '_fields')[name]
+        if isinstance(v, Lazy):
+            v = object.__getattribute__(self, '_fields')[name] = v.thunk()
+        return v
 
     def field_names(self):
         return list(object.__getattribute__(self, '_fields'))
